@@ -92,7 +92,7 @@ class Monitor:
         self.prev_out = None
         self.shadow = None
         self.pause = None
-        self.history = []          # (run_no, shadow, how it ended)
+        self.history = []          # (run_no, [shadow, other readings...], how it ended)
         self.seen_run = {}         # register -> values it held at a tick end of the current run
         self.run_no = 0
         self.rid = None
@@ -174,7 +174,7 @@ class Monitor:
                     elif mem[r] != out[r]:
                         probs.append((f"C09:hardware-not-restored:{r}",
                                       f"tick {ob['n']}: after Unpause tag {r} = {out[r]!r} but the hardware holds {mem[r]!r}"))
-                self.history.append((self.pause["run_no"], self.shadow, "unpaused"))
+                self.history.append((self.pause["run_no"], [self.shadow] + self.alt, "unpaused"))
                 self.shadow = None
             elif same_run and post["paused"]:
                 if self.pause_events.get(ob["n"], 0) >= 1:
@@ -184,7 +184,7 @@ class Monitor:
                         self.pause["double"] = True
                         self.double += 1
             else:
-                self.history.append((self.pause["run_no"], self.shadow, "run-ended"))
+                self.history.append((self.pause["run_no"], [self.shadow] + self.alt, "run-ended"))
                 self.shadow = None
         if self.shadow is None and post["paused"] and post["started"]:
             n_pause = sum(1 for r in self.pending if r["kind"] == "user" and r["name"] == "Pause")
@@ -218,8 +218,8 @@ class Monitor:
         for never_undone in (True, False):
             if not never_undone and r in self.safe and actual == self.safe[r]:
                 return f"C09:left-at-safe-value:{r}:{kind}"
-            for (run_no, sh, how) in reversed(self.history):
-                if sh[r] == actual and (how == "run-ended") == never_undone:
+            for (run_no, readings, how) in reversed(self.history):
+                if any(sh[r] == actual for sh in readings) and (how == "run-ended") == never_undone:
                     if run_no < self.run_no:
                         return f"C09:stale-prev-state:cross-run:{kind}"
                     return f"C09:stale-prev-state:earlier-pause-of-same-run:{kind}"
